@@ -108,6 +108,7 @@ func H_C07_redel() {
 		nd.Tag("merged-redelegation")
 	}
 	f := nd.DecRange("fraction", "0.000000000000000001", "1")
+	tagLiveness(e, 1) // C05's finding: a destination validator whose token value rounds to zero
 	preDst, _ := delegationShares(e, Pos{0, 1, 0})
 	preOther, _ := delegationShares(e, Pos{1, 1, 0})
 	preSrc, _ := delegationShares(e, Pos{0, 0, 0})
